@@ -383,10 +383,19 @@ class Builder:
         return Source(lines=(m, m), string=f'! source of node {m}')
 
     def build(self, d, register=True):
-        """build the tree for description ``d``; fills ``self.nodes`` in pre-order when ``register``"""
+        """
+        build the tree for description ``d``; fills ``self.nodes`` in pre-order when ``register``.
+        Nodes built with ``register=False`` (replacement handles) never carry a source object.
+        """
         if register:
             self.nodes = []
-        return self._node(d, register)
+        saved = self.with_source
+        if not register:
+            self.with_source = False
+        try:
+            return self._node(d, register)
+        finally:
+            self.with_source = saved
 
     def _seq(self, descs, register):
         return tuple(self._node(c, register) for c in descs)
